@@ -629,6 +629,14 @@ class Interp:
         if f[0] == 'fn':
             target = self.prog.by_path.get(f[1])
             if target is not None:
+                if self.hook is not None:
+                    # a function item applied through a combinator is the same call as writing it out: give the rule's hook its say
+                    synth = dict(k='call', callee=dict(**{'def': f[1]}, name=target.name or f[1].split('::')[-1], local=True, trait=target.j.get('impl_trait'), args=[]), args=[], span=target.span, dest=dict(l=0, p=[]), target=0)
+                    hv = self.hook(self, target, synth, list(argv))
+                    if hv is not None and not isinstance(hv, (Fork, Stop)):
+                        return hv
+                if self.opaque and self.opaque(target):
+                    return ('app', f[1], tuple(argv))
                 return ('paths', self.paths(target, list(argv), depth + 1))
             # tuple-variant / tuple-struct constructor used as a function (`.map(Value::Int)`)
             parent, _, vname = f[1].rpartition('::')
